@@ -48,6 +48,15 @@ let fork_oracle id here what (prev : string array) (cur : string array) (origin 
           propfail id (Printf.sprintf "%s: new %s %d does not start equal to its origin %d: origin %s copy %s" here what k origin prev.(origin) s)
       end) cur
 
+(* an operation or a snapshot that did not terminate (the harness gives up after 20 s and ends the run) *)
+let hang_check id here (ob : sx) : bool =
+  let r = List.hd (args (field "r" ob)) in
+  if (match r with A "hang" -> true | L [A "hang"] -> true | _ -> false) then begin
+    mismatch id (here ^ " did not return (harness watchdog)"); true end
+  else if field_opt "hang" ob <> None then begin
+    propfail id (here ^ ": afterwards the snapshot of the copies did not terminate (a copy can no longer report its state)"); true end
+  else false
+
 (* ------------------------------------------------------------------------------------------ *)
 (* bd *)
 
@@ -97,6 +106,7 @@ let bd_shared_str (s : bd_shared) : string =
 let bd_case id c =
   let people = bool_of_sx (List.hd (args (field "people" c))) in
   let ops = args (field "ops" c) and obs = args (field "obs" c) in
+  let pf0 = !n_propfail in
   let st = ref bd_init in
   let prev = ref [| "(c 0 0 0 262142 (mf) (files))" |] in
   let stop = ref false in
@@ -105,6 +115,7 @@ let bd_case id c =
       let opsx = List.nth ops i in
       let here = Printf.sprintf "op#%d %s" i (str opsx) in
       let (a, target) = bd_act opsx in
+      if hang_check id here ob then stop := true else begin
       let r = atom (List.hd (args (field "r" ob))) in
       let cur = resolve !prev (args (field "copies" ob)) in
       (* --- the property, on the implementation's snapshots --- *)
@@ -137,8 +148,10 @@ let bd_case id c =
       end;
       st := st'; prev := cur;
       if failed then stop := true
+      end
     end) obs;
-  if List.length obs < List.length ops && not !stop then mismatch id "fewer observations than operations without a failure"
+  if List.length obs < List.length ops && not !stop && !n_propfail = pf0 then
+    mismatch id "fewer observations than operations without a failure"
 
 (* ------------------------------------------------------------------------------------------ *)
 (* rb *)
@@ -163,13 +176,15 @@ let rb_side_str (p : rb_priv) : string =
 
 let rb_case id c =
   let ops = args (field "ops" c) and obs = args (field "obs" c) in
-  if List.length ops <> List.length obs then failwith "ops/obs length";
+  let pf0 = !n_propfail and mm0 = !n_mismatch in
   let st = ref rb_init in
   let prev = ref [| "(s 0)" |] in
+  let stop = ref false in
   List.iteri (fun i ob ->
     let opsx = List.nth ops i in
     let here = Printf.sprintf "op#%d %s" i (str opsx) in
     let (a, target) = rb_act opsx in
+    if !stop then () else if hang_check id here ob then stop := true else
     let r = atom (List.hd (args (field "r" ob))) in
     let cur = resolve !prev (args (field "sides" ob)) in
     let arena = Array.of_list (List.map bool_of_sx (args (field "arena" ob))) in
@@ -194,7 +209,9 @@ let rb_case id c =
         count "copy_states_compared";
         let ms = rb_side_str mp.(k) in
         if ms <> s then mismatch id (Printf.sprintf "%s side %d: implementation %s model %s" here k s ms)) cur;
-    st := st'; prev := cur) obs
+    st := st'; prev := cur) obs;
+  if List.length obs < List.length ops && !n_propfail = pf0 && !n_mismatch = mm0 then
+    mismatch id "fewer observations than operations without a finding"
 
 (* ------------------------------------------------------------------------------------------ *)
 (* pl *)
@@ -214,7 +231,8 @@ let pl_case id c =
   let commits = List.map pl_commit (args (field "commits" c)) in
   let find cid = List.find_opt (fun cm -> int_of_z cm.c_id = cid) commits in
   let ops = args (field "ops" c) and obs = args (field "obs" c) in
-  if List.length ops <> List.length obs then failwith "ops/obs length";
+  let mm0 = !n_mismatch in
+  let stop = ref false in
   let st = ref pl_init in
   let prev = ref [| "(p -1 0 () 0)" |] in
   let t0_set = ref false in
@@ -223,6 +241,7 @@ let pl_case id c =
     let here = Printf.sprintf "op#%d %s" i (str opsx) in
     let a = Array.of_list (List.map int_of_sx (args opsx)) in
     let target = a.(0) in
+    if !stop then () else if hang_check id here ob then stop := true else
     let r = List.hd (args (field "r" ob)) and twin = List.hd (args (field "twin" ob)) in
     let cur = resolve !prev (args (field "copies" ob)) in
     let act = (match tag opsx, tag r with
@@ -294,7 +313,8 @@ let pl_case id c =
     end;
     List.iteri (fun k f -> if not (bool_of_sx f) then
       mismatch id (Printf.sprintf "%s copy %d does not see the same tick0/registry as the origin" here k)) (args (field "shsame" ob));
-    prev := cur) obs
+    prev := cur) obs;
+  if List.length obs < List.length ops && !n_mismatch = mm0 then mismatch id "fewer observations than operations without a finding"
 
 let () =
   iter_cases (fun id c ->
